@@ -18,7 +18,7 @@ import vlib
 from vlib import CheckError
 
 PID = "C13"
-REPLAYS = ["f3a", "f3b", "f3c", "f3d", "upkey", "collide", "close2", "closefault", "tunfail", "sendinflight"]
+REPLAYS = ["f3a", "f3b", "f3c", "f3d", "upkey", "collide", "close2", "closefault", "tunfail", "sendinflight", "fullqueue"]
 REPLAY_DOC = {
     "f3a": "BindUpdate (net.Lock -> peers.RLock) vs UAPI remove peer (peers.Lock, Peer.Stop waits for the sender blocked in SendBuffers on net.RLock); Proofs.bindupdate_vs_removepeer_deadlocks",
     "f3b": "UAPI private_key equal to a peer's key (staticIdentity.Lock + peers.Lock, Peer.Stop waits for the sender) vs the sender's rekey (CreateMessageInitiation -> staticIdentity.RLock); Proofs.setprivatekey_collision_vs_sender_rekey_deadlocks",
@@ -29,6 +29,7 @@ REPLAY_DOC = {
     "f3d": "Down (peers.RLock, Peer.Stop waits for the peer's routine) vs that routine's rekey (CreateMessageInitiation -> staticIdentity.RLock) vs UAPI private_key, any key (staticIdentity.Lock -> peers.Lock); Proofs.down_vs_setprivatekey_vs_sender_rekey_deadlocks",
     "tunfail": "scenario that must hold: a fatal TUN read error under a running device; device.Wait() fires, every later call returns, bind closed, goroutines gone",
     "sendinflight": "scenario that must hold: a data send parked inside bind.Send (SendGate) while Down / BindUpdate / Close run; none of them may return before the send is released",
+    "fullqueue": "scenario that must hold: a peer's outbound (sender parked in bind.Send) or inbound (receiver parked in tun.Write) queue exactly full (1024) when UAPI remove / Down / Close stop the peer; after the gate is released every call returns and all goroutines terminate",
     "upkey": "Up (peers.RLock in upLocked, keepalive -> CreateMessageInitiation -> staticIdentity.RLock) vs direct device.SetPrivateKey (staticIdentity.Lock -> peers.Lock); Proofs.up_keepalive_vs_direct_setprivatekey_deadlocks",
 }
 RUN_THEOREMS = ["Run.code_edges_minus_listed_inversions_climb", "Run.no_new_same_class_nesting",
@@ -381,6 +382,9 @@ def check(tier, seed):
             # not a stable blocked set after 30 s of waiting: no verdict from this replay
             replay_summary[m] = "inconclusive: " + r["note"]
         elif r.get("hang"):
+            if m in ("collide", "close2", "closefault", "tunfail", "sendinflight", "fullqueue") and r["key"].startswith("hang-"):
+                # a must-hold scenario whose calls do not return: name the clause ("every call returns")
+                r["key"] = "%s-call-never-returns-%s" % (m, r["key"][5:])
             replay_summary[m] = r["key"]
             viols.append({"key": r["key"], "kind": "deadlock-replay", "detail": "deterministic replay %s deadlocks the real device: %s" % (m, REPLAY_DOC[m]),
                           "entries": r.get("entries"), "steps": r.get("steps"), "input": {"replay_mode": m, "cmd": "out/bin/c13 -mode %s -stacks" % m}})
